@@ -35,15 +35,19 @@ TRUSTED_BASE = [
     "reference encoders tools/harness/props/c03_enc.py (each compared with its Lean twin Spec/FilterEnc.lean on every case)",
     "hand models lean/PdfVerif/Model/Filters.lean (decoders, predictors, filter pipeline, stream delimitation), "
     "tied to pdfminer by differential correspondence on valid and corrupted inputs",
-    "tools/translate (Python ast -> Lean) for paeth_predictor, the LITERALS_* filter-name tuples and _DECODE_ERRORS",
+    "tools/translate (Python ast -> Lean) for paeth_predictor, the LITERALS_* filter-name tuples, _DECODE_ERRORS, the "
+    "constants / straight-line arithmetic of lzw.py, runlength.py, apply_png_predictor, apply_tiff_predictor and the "
+    "`endstream` marker + Length clamp of pdfparser.py (all linked to the model by proved theorems or used by it directly)",
     "zlib (Flate) is an abstract inverse pair in Lean; the driver receives zlib's results from the harness",
-    "base64.a85decode (CPython) is modelled by hand from its source",
+    "base64.a85decode (CPython): loop structure modelled by hand; its constants, guards and arithmetic are translated "
+    "from the running interpreter's source and linked by a85decode_translated; struct.pack('!I') overflow is hand-modelled",
     "shared PDF writer tools/harness/pdfwriter.py for the generated files",
 ]
 ASSUMPTIONS = [
     "zlib.decompress(zlib.compress(x)) == x",
     "Length equals the payload length (the property's domain); EOL after `stream` is LF or CRLF, or a lone CR only "
-    "when the payload does not begin with LF (ISO 32000-1 7.3.8.1)",
+    "when the payload does not begin with LF (ISO 32000-1 7.3.8.1); in fallback mode (rebuilt xref, Length ignored) "
+    "the payload does not contain `endstream` and the keyword's line is complete",
     "white space emitted by the reference encoders inside ASCIIHex is one of Python's \\s bytes and inside ASCII85 one "
     "of ' \\t\\n\\r\\v' (NUL / FF inside ASCII85 data are not generated)",
     "predictor parameters are attached to LZW/Flate stages (ISO 32000-1 Table 8) in the property domain",
@@ -69,6 +73,36 @@ STATEMENT_STATUS: Dict[str, str] = {
     "stream_decode_handler": "proved: decode()'s handler for decoder-internal errors keeps every successful decode and "
                              "only substitutes the empty string",
     "stream_delim": "proved: payload delimited exactly for LF / CRLF (and CR not followed by LF), any payload bytes, Length = |payload|",
+    "lzw_translated/rl_translated/png_translated/tiff_translated/a85_ahx_translated": "proved: every hand-written constant / row formula of the "
+        "LZW, RunLength, PNG, TIFF and ASCIIHex models equals the definition regenerated from lzw.py / runlength.py / utils.py / ascii85.py; "
+        "the three regex sources of ascii85.py are the patterns the hand model implements "
+        "(nbitsAfter, pngNbytes, pngBpp are used by the model directly)",
+    "lzw_readbits_translated": "proved: one iteration of the model's LZW bit reader = the translated loop body of "
+        "LZWDecoder.readbits (shifts / masks as Python writes them), for every reader state",
+    "a85decode_translated": "proved: one iteration of the model's a85decode loop and its final padding step = the code "
+        "translated from the source of base64.a85decode of the running interpreter (defaults foldspaces=adobe=False, "
+        "ignorechars, digit range, group length, 85*acc+(x-33), z group, b'u'*4, 4-len(curr))",
+    "length_direct_indirect/length_resolve_fuel/stream_read_indirect": "proved: int_value(dic['Length']) is the same for an "
+        "integer and for a reference to an object holding it; unresolvable / cyclic / non-integer give 0, a missing key none; "
+        "the resolution fuel suffices; stream_read_exact with an indirect Length",
+    "stream_keys_rt": "proved: the chain theorem through the stream dictionary - Filter or F, DecodeParms or DP or FDecodeParms "
+        "(translated key tuples)",
+    "dict_keys_priority/stream_dict_rt": "proved: for every stream dictionary F wins over Filter, DP over DecodeParms over "
+        "FDecodeParms (translated tuples), and the chain theorem holds for every dictionary whose winning keys carry the arrays",
+    "file_chain_rt": "proved: the property in one statement - file bytes -> stream branch (Length = |z|) -> PDFStream.decode "
+        "of a chain of any length gives exactly the payload",
+    "predictor_translated": "proved: the model's predictor dispatch = the translated `pred == 1 / == 2 / >= 10 / else` chain of "
+        "PDFStream._decode with the translated Colors / Columns / BitsPerComponent defaults",
+    "stream_read_exact": "proved: whole stream branch (streamRead), Length = |payload|: rawdata = payload (any bytes) and the "
+        "parser resumes exactly at `endstream`, any marker-free bytes in between",
+    "stream_fallback_delim": "proved: fallback mode (Length ignored, any value): rawdata = bytes up to the first `endstream`, "
+        "for every marker-free payload, any line ends inside it",
+    "stream_scan_delim/stream_marker_free/scan_fuel": "proved: the endstream scan loop passes over exactly d; hypothesis = "
+        "`endstream` does not occur in d (the marker has no border); the scan's fuel suffices",
+    "stream_read_payload": "proved: streamRead's payload = streamPayload for every file/position/Length (clamp: negative or "
+        "missing Length reads nothing, a too large one stops at the end of the file)",
+    "stream_shared_parms_rt/stream_single_rt": "proved: Filter array with ONE DecodeParms dictionary (or none) for all "
+        "filters, and the single forms (Filter a name, DecodeParms a dictionary or absent)",
 }
 
 CLASSIFIERS = {
@@ -909,24 +943,28 @@ class _StubDoc:
         raise KeyError(objid)
 
 
-def parse_stream_at(buf: bytes, pos: int):
+def parse_stream_at(buf: bytes, pos: int, fallback: bool = False, want_end: bool = False, doc=None):
     """Run the real PDFParser on `buf` from `pos` (start of `<< ... >> stream`); returns (dict, rawdata)
     of the first stream object the `stream` branch of do_keyword pushes; PSEOF when it pushes none."""
     from pdfminer.pdfparser import PDFParser
     from pdfminer.pdftypes import PDFStream
     from pdfminer.psexceptions import PSEOF
     captured = []
+    ends: List[int] = []
 
     class Capture(PDFParser):
         def push(self, *objs):
             for o in objs:
                 if isinstance(o, tuple) and len(o) == 2 and isinstance(o[1], PDFStream):
                     captured.append(o[1])
+                    # do_keyword has just done `self.seek(pos + objlen)`: where parsing resumes
+                    ends.append(self.bufpos + self.charpos)
             PDFParser.push(self, *objs)
 
     p = Capture(io.BytesIO(buf))
-    p.set_document(_StubDoc())  # type: ignore[arg-type]
+    p.set_document(doc if doc is not None else _StubDoc())  # type: ignore[arg-type]
     p.seek(pos)
+    p.fallback = fallback
     try:
         p.nextobject()
     except PSEOF:
@@ -938,7 +976,243 @@ def parse_stream_at(buf: bytes, pos: int):
             raise
     if not captured:
         raise PSEOF("no stream object")
+    if want_end:
+        return captured[0].attrs, captured[0].get_rawdata(), ends[0]
     return captured[0].attrs, captured[0].get_rawdata()
+
+
+ENDSTREAM = b"endstream"
+
+
+def streamx_impl(buf: bytes, pos: int, fallback: bool, len_obj=None) -> str:
+    try:
+        doc = _ObjDoc([(len_obj[0], len_obj[1])]) if len_obj else None
+        _, raw, end = parse_stream_at(buf, pos, fallback=fallback, want_end=True, doc=doc)
+        return "B " + hx(raw) + " " + str(end)
+    except Exception as e:  # noqa: BLE001
+        return "E " + type(e).__name__
+
+
+def check_streamx(ctx, batch, inp, from_replay: bool = False) -> None:
+    """The whole `stream` branch: (tie) `streamRead` == do_keyword for fallback / non-fallback, any Length
+    (negative, huge, missing) -- rawdata and the position the parser resumes at; (prop) on inputs of the
+    domain of `stream_scan_delim` / `stream_read_exact` the implementation itself must return the payload
+    and resume exactly at `endstream`."""
+    head, dic, eol, payload, tail, post = (unhx(inp[k]) for k in ("head", "dic", "eol", "payload", "tail", "post"))
+    fb = bool(inp["fallback"])
+    buf = head + dic + b"stream" + eol + payload + tail + post
+    if inp.get("cut") is not None:
+        buf = buf[:inp["cut"]]
+    spos = len(head) + len(dic)
+    got = streamx_impl(buf, len(head), fb, inp.get("len_obj"))
+    ln = inp["length"]
+    batch.add(f"streamx {1 if fb else 0} {spos} {'none' if ln is None else ln} {hx(buf)}", got,
+              {"op": "streamx", "input": inp})
+    kind = got[2:] if got.startswith("E") else "ok"
+    ctx.case(("streamx", buf, fb, ln), True, sample={"op": "streamx", "fallback": fb, "length": ln, "buf": hx(buf)[:80]},
+             branch="streamx:%s:%s:%s" % ("fallback" if fb else "length",
+                                          "nolen" if ln is None else (("neg" if ln < 0 else "int") +
+                                                                      ("-indirect" if inp.get("len_obj") else "")), kind))
+    if not inp.get("domain"):
+        return
+    # property on the implementation.  domain: tail ends the data, `endstream` follows, a line end follows it
+    body = payload + tail
+    where = len(head) + len(dic) + 6 + len(eol) + len(body)
+    if fb:
+        exp = "B " + hx(body) + " " + str(where)          # data = everything up to the marker
+    else:
+        exp = "B " + hx(payload) + " " + str(where)       # data = Length bytes, parser resumes at the marker
+    ctx.branch("streamx:domain:" + ("fallback" if fb else "length"))
+    if got != exp and not from_replay and len(payload) > 1:
+        # shrink the payload (Length follows it when it was the payload length)
+        def variant(sub: bytes):
+            inp2 = dict(inp)
+            inp2["payload"] = hx(sub)
+            if inp["length"] == len(payload):
+                inp2["length"] = len(sub)
+                if inp.get("len_obj"):
+                    inp2["len_obj"] = [inp["len_obj"][0], len(sub)]
+                else:
+                    inp2["dic"] = hx(b"<</Length %d>>" % len(sub) + dic[dic.rfind(b">>") + 2:])
+            return inp2
+
+        def outcome(inp2):
+            h2, d2, e2, p2, t2, q2 = (unhx(inp2[k]) for k in ("head", "dic", "eol", "payload", "tail", "post"))
+            if fb and ENDSTREAM in p2 + t2:
+                return None
+            if e2 == b"\r" and p2[:1] == b"\n":
+                return None
+            buf2 = h2 + d2 + b"stream" + e2 + p2 + t2 + q2
+            w2 = len(h2) + len(d2) + 6 + len(e2) + len(p2 + t2)
+            exp2 = "B " + hx(p2 + t2 if fb else p2) + " " + str(w2)
+            return streamx_impl(buf2, len(h2), fb, inp2.get("len_obj")), exp2
+
+        def still(sub: bytes) -> bool:
+            r = outcome(variant(sub))
+            return r is not None and r[0] != r[1]
+        small = shrink_bytes(payload, still)
+        r = outcome(variant(small))
+        if small != payload and r is not None and r[0] != r[1]:
+            inp = variant(small)
+            got, exp = r
+    if got != exp:
+        ctx.fail(C.Failure("stream branch: rawdata / resume position wrong (%s mode)" % ("fallback" if fb else "Length"),
+                           {"kind": "streamx", **inp}, exp[:400], got[:400],
+                           {"stage": "delimit", "mode": "fallback" if fb else "length"}))
+
+
+class _ObjDoc:
+    """Stub document for `PDFObjRef.resolve`: `objs` maps id -> object; a missing id raises PDFObjectNotFound."""
+    decipher = None
+
+    def __init__(self, objs):
+        self.objs = objs
+
+    def getobj(self, objid):
+        from pdfminer.pdfexceptions import PDFObjectNotFound
+        for k, v in self.objs:
+            if k == objid:
+                return v
+        raise PDFObjectNotFound(objid)
+
+
+def check_lenval(ctx, batch, objs, v) -> None:
+    """(tie) `lengthValue` == `int_value(dic["Length"])` (pdftypes.int_value / resolve1 / PDFObjRef.resolve) for
+    direct, indirect (chains, cycles, missing objects, non-integers, duplicate ids) and missing Length."""
+    from pdfminer.pdftypes import PDFObjRef, int_value
+    from pdfminer.psparser import LIT
+    doc = _ObjDoc([])
+
+    def py(o):
+        if o[0] == "i":
+            return o[1]
+        if o[0] == "r":
+            return PDFObjRef(doc, o[1])  # type: ignore[arg-type]
+        return o[1]
+    doc.objs = [(k, py(o)) for k, o in objs]
+    dic = {} if v is None else {"Length": py(v)}
+    try:
+        got = str(int_value(dic["Length"]))
+    except KeyError:
+        got = "none"
+    except Exception as e:  # noqa: BLE001
+        got = "E " + type(e).__name__
+
+    def sp(o):
+        return "i%d" % o[1] if o[0] == "i" else ("r%d" % o[1] if o[0] == "r" else "o")
+    line = "lenval " + (",".join("%d:%s" % (k, sp(o)) for k, o in objs) or "-") + " " + ("none" if v is None else sp(v))
+    batch.add(line, got, {"op": "lenval"})
+    kind = "none" if v is None else v[0]
+    ctx.case(("lenval", line), True, sample={"op": "lenval", "line": line[:80]},
+             branch="lenval:%s:%s" % (kind, "zero" if got == "0" else ("none" if got == "none" else "int")))
+
+
+def gen_lenval(rng):
+    from pdfminer.psparser import LIT
+    others = [None, 1.5, b"7", LIT("N"), [3], {"a": 1}]
+
+    def obj(ids):
+        k = rng.random()
+        if k < 0.4:
+            return ("i", rng.choice([0, 1, 5, 300, -4, 10 ** 6, 2 ** 70]))
+        if k < 0.85:
+            return ("r", rng.choice(ids + [rng.randint(1, 12)]))
+        return ("o", rng.choice(others))
+    ids = [rng.randint(1, 9) for _ in range(rng.randint(0, 6))]
+    objs = [(i, obj(ids)) for i in ids]
+    v = None if rng.random() < 0.08 else obj(ids or [3])
+    return objs, v
+
+
+def check_getfilters(ctx, batch, fattrs, pattrs) -> None:
+    """(tie) `streamFilters` == `PDFStream.get_filters()` on stream dictionaries with any subset of the keys
+    F / Filter / DP / DecodeParms / FDecodeParms (+ unrelated keys): which key wins, name vs array, dict vs array."""
+    from pdfminer.pdftypes import PDFStream
+    from pdfminer.psparser import LIT, literal_name
+
+    def fval(v):
+        return LIT(v) if isinstance(v, str) else [LIT(x) for x in v]
+
+    def pval(v):
+        return v
+    attrs: Dict[str, Any] = {}
+    for k, v in fattrs:
+        attrs[k] = fval(v)
+    for k, v in pattrs:
+        attrs[k] = pval(v)
+    try:
+        r = PDFStream(attrs, b"").get_filters()
+        got = ",".join(hx(literal_name(f).encode("latin-1")) + "/" + (dspec(pp) if pp else "Z") for f, pp in r) or "[]"
+    except Exception as e:  # noqa: BLE001
+        got = "E " + type(e).__name__
+    fa = ";".join(k.encode().hex() + "=" + fspec(v) for k, v in fattrs) or "-"
+    pa = ";".join(k.encode().hex() + "=" + pspec(v) for k, v in pattrs) or "-"
+    line = f"getfilters {fa} {pa}"
+    batch.add(line, got, {"op": "getfilters"})
+    ctx.case(("getfilters", line), True, sample={"op": "getfilters", "line": line[:100]},
+             branch="getfilters:f=%s:p=%s" % ("+".join(sorted(k for k, _ in fattrs)) or "none",
+                                               "+".join(sorted(k for k, _ in pattrs)) or "none"))
+
+
+def gen_getfilters(rng):
+    names = ["FlateDecode", "Fl", "AHx", "LZW", "N1", "N2"]
+
+    def fv():
+        return rng.choice(names) if rng.random() < 0.4 else [rng.choice(names) for _ in range(rng.randint(1, 3))]
+
+    def dct():
+        d = {}
+        for k, vals in (("Predictor", [1, 2, 12]), ("Colors", [1, 3]), ("Columns", [1, 5]), ("BitsPerComponent", [8, 1])):
+            if rng.random() < 0.5:
+                d[k] = rng.choice(vals)
+        return d or {"Predictor": 1}
+
+    def pv():
+        return dct() if rng.random() < 0.4 else [rng.choice([dct(), dct(), None]) for _ in range(rng.randint(1, 3))]
+    fkeys = [k for k in ("Filter", "F") if rng.random() < 0.55]
+    pkeys = [k for k in ("FDecodeParms", "DecodeParms", "DP") if rng.random() < 0.45]
+    rng.shuffle(fkeys)
+    rng.shuffle(pkeys)
+    return [(k, fv()) for k in fkeys], [(k, pv()) for k in pkeys]
+
+
+def gen_streamx(rng, domain: bool):
+    payload = gen_payload(rng, 60)
+    if domain or rng.random() < 0.5:
+        # keep the marker out of the scanned part (domain of the theorems)
+        payload_scan_free = True
+    else:
+        payload_scan_free = False
+    fb = rng.random() < 0.5
+    eol = rng.choice([b"\n", b"\r\n"]) if domain else rng.choice([b"\n", b"\r\n", b"\r", b" \n", b"\r\r", b"\n\n"])
+    if eol == b"\r" and payload[:1] == b"\n":
+        eol = b"\r\n"
+    tail = rng.choice([b"\n", b"\r\n", b"", b"\r", b" ", b"\n\n", b"ends", b"\rendstrea\n"])
+    post = rng.choice([b"\nendobj\n", b"\r\nendobj\r\n", b" endobj\n", b"\n", b"\rX"])
+    head = b"5 0 obj\n"
+    if domain:
+        ln: Any = len(payload) if not fb else rng.choice([len(payload), 0, 3, None, -1, 10 ** 6])
+        if fb:
+            # in fallback mode everything before the marker is scanned: it must not contain the marker
+            while ENDSTREAM in payload + tail:
+                i = (payload + tail).find(ENDSTREAM)
+                payload = (payload[:i] + b"e-" + payload[i + 2:]) if i + 2 <= len(payload) else payload[:i]
+        post = ENDSTREAM + post
+    else:
+        ln = rng.choice([len(payload), 0, None, -1, -rng.randint(2, 50), len(payload) + rng.randint(1, 30),
+                         max(0, len(payload) - rng.randint(1, 5)), 10 ** 6, 2 ** 70])
+        post = rng.choice([ENDSTREAM + post, ENDSTREAM + post, b"endstrea", b"", b"\n", ENDSTREAM, b"xendstream endstream\n"])
+    len_obj = None
+    if ln is not None and rng.random() < 0.3:
+        len_obj = [rng.randint(6, 40), ln]          # `/Length n 0 R`, object n holds the integer
+    dic = (b"<<>>" if ln is None else (b"<</Length %d 0 R>>" % len_obj[0] if len_obj else b"<</Length %d>>" % ln)) \
+        + rng.choice([b"\n", b" ", b"", b"\r\n"])
+    inp = {"len_obj": len_obj, "head": hx(head), "dic": hx(dic), "eol": hx(eol), "payload": hx(payload), "tail": hx(tail), "post": hx(post),
+           "fallback": fb, "length": ln, "cut": None, "domain": domain}
+    if not domain and rng.random() < 0.12:
+        total = len(head) + len(dic) + 6 + len(eol) + len(payload) + len(tail) + len(post)
+        inp["cut"] = rng.randint(len(head) + len(dic) + 6, total)
+    return inp
 
 
 def run_chains(ctx) -> None:
@@ -1081,6 +1355,18 @@ def run_chains(ctx) -> None:
         batch.add(f"stream {spos} {ln} {hx(buf)}", got, {"op": "stream-wild"})
         ctx.case(("streamwild", buf, ln), True, branch="streamwild:" + (got[2:] if got.startswith("E") else "ok"))
     batch.flush()
+    # round 6: which dictionary keys get_filters reads (F / Filter, DP / DecodeParms / FDecodeParms)
+    for i in range(ctx.n(300, 4000)):
+        check_getfilters(ctx, batch, *gen_getfilters(rng))
+    batch.flush()
+    # round 6: int_value(dic["Length"]) - direct / indirect / missing
+    for i in range(ctx.n(400, 5000)):
+        check_lenval(ctx, batch, *gen_lenval(rng))
+    batch.flush()
+    # round 6: the whole stream branch (fallback mode, Length clamp, endstream scan, resume position)
+    for i in range(ctx.n(700, 9000)):
+        check_streamx(ctx, batch, gen_streamx(rng, domain=(i % 3 == 0)))
+    batch.flush()
 
 
 # ----------------------------------------------------------------------------- corpus / replay / run
@@ -1095,6 +1381,8 @@ def replay(ctx: C.Ctx, doc, from_corpus: bool = False) -> None:
         stages = [Stage.from_json(j) for j in inp["stages"]]
         x = unhx(inp["payload"])
         check_chain(ctx, batch, stages, x, encode_chain(stages, x), inp["layout"], from_replay=True)
+    elif inp.get("kind") == "streamx":
+        check_streamx(ctx, batch, inp, from_replay=True)
     ctx.branch("corpus" if from_corpus else "replay")
     batch.flush()
 
